@@ -51,7 +51,7 @@ pub fn op_strategy(schema: &SchemaSpec, ids: usize, handles: usize, docopts: Doc
 pub fn case_strategy(max_ops: usize, schema_opts: SchemaOpts) -> BoxedStrategy<Case> {
   (gen::schema(schema_opts), prop_oneof![Just(StorageKind::Fs), Just(StorageKind::Mem)], any::<bool>(), 4usize..14, 1usize..4)
     .prop_flat_map(move |(schema, storage, positions, ids, handles)| {
-      let docopts = DocOpts { text: gen::TextOpts { max_words: 4, odd: true, vocab: 12 }, max_multi: 2, absent: 2, max_nested_objs: 2, null_items: true };
+      let docopts = DocOpts { text: gen::TextOpts { max_words: 4, odd: true, vocab: 12 }, max_multi: 2, absent: 2, max_nested_objs: 2, null_items: true, extremes: true };
       let ops = vec(op_strategy(&schema, ids, handles, docopts), 3..max_ops);
       (Just(schema), Just(storage), Just(positions), ops)
     })
